@@ -262,6 +262,12 @@ impl Dist {
     }
 
     fn dist_sample<R: RngCore>(self, rng: &mut R) -> f64 {
+        #[cfg(feature = "verif")]
+        if crate::verif::dist_sample_enter() {
+            let raw = self.dist_sample(rng);
+            crate::verif::dist_sample_leave(raw);
+            return raw;
+        }
         use rand::Rng;
         match self.dist {
             DistType::Uniform { low, high } => {
